@@ -186,7 +186,9 @@ func c10Integration(e *refmodel.Event) (dig.Integration, error) {
 }
 
 func c10Case(rt *rapid.T, ev *evid.Rec) {
-	e := gen.GenEvent(rt, gen.EventOpts{Types: gen.DefaultTypeOpts, MaxInputs: 4, AllowIndexed: true, NeedSelected: true, SelProb: 55})
+	to := gen.DefaultTypeOpts
+	to.DynBias = true
+	e := gen.GenEvent(rt, gen.EventOpts{Types: to, MaxInputs: 4, AllowIndexed: true, NeedSelected: true, SelProb: 55})
 	de := digEvent(e)
 	res := dig.NewResult(de.ABIType())
 	ig, err := c10Integration(e)
@@ -286,7 +288,7 @@ func TestC10_Hostile(t *testing.T) {
 func TestC10_AllTruncations(t *testing.T) {
 	ev := evid.For("C10", "AllTruncations")
 	rapid.Check(t, func(rt *rapid.T) {
-		e := gen.GenEvent(rt, gen.EventOpts{Types: gen.TypeOpts{MaxDepth: 3, MaxTuple: 3, MaxFixed: 11}, MaxInputs: 3, NeedSelected: true, SelProb: 60})
+		e := gen.GenEvent(rt, gen.EventOpts{Types: gen.TypeOpts{MaxDepth: 3, MaxTuple: 3, MaxFixed: 11, DynBias: true}, MaxInputs: 3, NeedSelected: true, SelProb: 60})
 		de := digEvent(e)
 		res := dig.NewResult(de.ABIType())
 		vals := gen.GenEventValues(rt, e, gen.ValueOpts{MaxDynLen: 2, MaxBytes: 40})
